@@ -38,7 +38,7 @@ def seed_basic() -> Tuple[Doc, Dict[str, Any]]:
     f1 = doc.add(font_type1("Helvetica", Encoding=N("WinAnsiEncoding")))
     f2 = doc.add(font_widths(name="SeedTT", first=32, widths=[500 + (i % 7) * 50 for i in range(95)], subtype="TrueType",
                              encoding={"Type": N("Encoding"), "BaseEncoding": N("WinAnsiEncoding"), "Differences": [65, N("Aacute"), N("uni0042")]}))
-    c1 = doc.add(Stream({}, b"BT /F1 12 Tf 20 250 Td 14 TL (Hello seed) Tj T* [(kern) -120 (ed)] TJ /F#202 10 Tf (ABC\\040xyz) ' ET\n"
+    c1 = doc.add(Stream({}, b"BT /F1 12 Tf 20 250 Td 14 TL (Hello seed) Tj T* [(kern) -120 (ed)] TJ /F#202 10 Tf (ABC\\040xyz) ' 2 -13 TD (td) Tj T* (star) Tj 1 2 (quote) \" ET\n"
                             b"q 1 0 0 1 5 5 cm 0.5 g 10 10 50 20 re f 2 w 0 0 m 100 100 l S Q"))
     c2a = doc.add(Stream({}, b"BT /F#202 9 Tf 1 0 0 1 30 200 Tm (second"))
     c2b = doc.add(Stream({}, b" page) Tj ET"))
@@ -176,14 +176,20 @@ def seed_graphics() -> Tuple[Doc, Dict[str, Any]]:
                             "Resources": {"XObject": {"In": inner}, "Font": {"F1": f1}}},
                            b"q /In Do Q BT /F1 8 Tf 10 40 Td (outer) Tj ET"))
     content = (b"q 50 0 0 30 10 10 cm /Im1 Do Q q 20 0 0 20 80 10 cm /Im2 Do Q q 90 0 0 20 120 10 cm /Im3 Do Q q 10 0 0 10 230 10 cm /Im4 Do Q\n"
-               b"/Fm1 Do\n/Cs1 cs 0.1 0.2 0.3 sc /Cs1 CS 0.3 0.2 0.1 SCN 1 0 0 RG 0 1 0 rg 0 0 0 1 k [3 2] 1 d 1.5 w\n"
+               b"/Fm1 Do\n/Cs2 cs 0.5 0.25 scn 1 1 2 2 re f /Cs3 cs 1 sc 2 2 2 2 re f /Cs4 CS 0.5 SCN 3 3 2 2 re S /Cs5 cs 50 10 -10 sc 4 4 2 2 re f\n"
+               b"/Cs1 cs 0.1 0.2 0.3 sc /Cs1 CS 0.3 0.2 0.1 SCN 1 0 0 RG 0 1 0 rg 0 0 0 1 k [3 2] 1 d 1.5 w\n"
                b"100 100 m 150 100 l 150 150 l 100 150 l h B 10 200 m 20 220 30 220 40 200 c 60 180 70 200 v 80 220 90 200 y S\n"
                b"200 200 30 30 re W n /GS1 gs\n"
                b"q 16 0 0 16 200 100 cm BI /W 4 /H 4 /BPC 8 /CS /G ID 0123456789abcdef\nEI Q\n"
+               b"q 8 0 0 8 230 100 cm BI /W 2 /H 2 /BPC 8 /CS /G /F /AHx /DP << /Predictor 1 >> ID 00ff7f80>\nEI Q\n"
+               b"q 8 0 0 8 240 100 cm BI /Width 2 /Height 1 /BitsPerComponent 8 /ColorSpace /DeviceGray /Filter [ /A85 ] ID 5sd~>\nEI Q\n"
                b"BT /F1 10 Tf 20 280 Td (after image) Tj ET")
     c = doc.add(Stream({}, content))
     res = {"Font": {"F1": f1}, "XObject": {"Im1": im_gray, "Im2": im_rgb, "Im3": im_bit, "Im4": im_dct, "Fm1": outer},
-           "ColorSpace": {"Cs1": [N("ICCBased"), icc]}, "ExtGState": {"GS1": {"Type": N("ExtGState"), "LW": 2, "CA": 0.5}}}
+           "ColorSpace": {"Cs1": [N("ICCBased"), icc],
+                          "Cs2": [N("DeviceN"), [N("InkA"), N("InkB")], N("DeviceRGB"), {"FunctionType": 2, "Domain": [0, 1, 0, 1], "C0": [0, 0, 0], "C1": [1, 1, 1], "N": 1}],
+                          "Cs3": [N("Indexed"), N("DeviceRGB"), 1, b"\x00\x00\x00\xff\xff\xff"], "Cs4": [N("Separation"), N("Spot"), N("DeviceGray"), {"FunctionType": 2, "Domain": [0, 1], "N": 1}],
+                          "Cs5": [N("Lab"), {"WhitePoint": [0.95, 1, 1.09]}]}, "ExtGState": {"GS1": {"Type": N("ExtGState"), "LW": 2, "CA": 0.5}}}
     return _finish(doc, [{"Resources": res, "Contents": c}]), {"output_dir": True}
 
 
